@@ -1,26 +1,26 @@
 import BtcwVerif.Lemmas.Balance
 import BtcwVerif.Lemmas.InvPres
+import BtcwVerif.Lemmas.WFMined
+import BtcwVerif.Lemmas.WFRollback
+import BtcwVerif.Lemmas.Calls
 /-!
 # C01 — balance and spendable outputs equal ledger truth
 
-What is proved here (all stores / instants / minConf / syncHeight of the model, no bounds):
+Proved here (all stores / histories / instants / minConf / syncHeight of the model, no bounds):
 
-* `C01_balance_partial` — on every store satisfying the representation invariant `Inv` (the two state descriptions
-  of the property anchors: *counter = total of mined credits without mined spender*, *unspent index = exactly those
-  credits*), `Balance` — a counter corrected by three passes over three different buckets — returns exactly the C01
-  sentence evaluated on the store's own records (`storeTruth`): mined credits without a mined spender that are not
-  leased, not spent by an unconfirmed transaction, with at least `minConf` confirmations and, if coinbase, mature;
-  plus, at `minConf = 0`, the unconfirmed credits that are neither leased nor spent.  It never double-subtracts
-  (leased ∧ unconfirmed-spent, leased ∧ immature) and its block window (`syncHeight − max minConf maturity`) misses
-  no credit.
+* `C01_balance` — after EVERY chain-consistent history of store calls starting from the empty store (unconfirmed and
+  confirmed inserts with redelivery, credits, abandonments, `Rollback` to any height and reconnection, leases, sweeps),
+  `Balance` — a counter corrected by three passes over three buckets — equals the C01 sentence evaluated on the
+  store's own records (`storeTruth`).  Chain consistency is `Call.Pre`, read on the store at each call.
+  It rests on `C01_inv_reachable` (the representation invariant holds after every such history: `wf2_run`, which uses
+  `wf2_insertMinedTx`, `wf2_addCredit_mined`, `wf2_rollback` and the preservation lemmas for the unconfirmed/lease
+  operations) and `C01_balance_inv` (Balance = formula under the invariant).
 * `C01_utxos_sound/_complete` — `UnspentOutputs` lists exactly the entries of the unspent index and of the unconfirmed
   credits that are neither leased nor spent by an unconfirmed transaction.
+* `C01_rollback_restores_spent_credit` — the former zero-value-credit defect, as a positive statement.
 
-`_partial`: what is NOT proved is that `Inv` is preserved by `insertMinedTx`, `rollback`, `removeConflict`
-(hence holds after every consistent history) and that the store's records are those of the `Ledger` (`step_repr`).
-Both are checked at run time instead: the driver evaluates `invB` and `balance = storeTruth` after every operation of
-every generated consistent history (op `inv`), and `Ledger.balance` is compared with the model and with the real
-`wtxmgr.Store.Balance` (ops `spec probe`/`probe`).
+NOT proved: that the store's records are those of the `Ledger` specification (`step_repr`), i.e. `storeTruth` =
+`Ledger.balance`; that equality is checked at run time (ops `spec probe` / `probe`: Lean spec = Lean model = real Go).
 -/
 namespace TxStore.C01
 open TxStore KMap
@@ -28,7 +28,7 @@ open TxStore KMap
 /-- **Balance = the C01 sentence on the store's own records**, for every store satisfying `Inv`, every instant,
 every coinbase maturity, every `minConf` and every `syncHeight` (negative and below-tip values included).
 (Proof: `balance_eq_storeTruth` in Lemmas/Balance.lean.) -/
-theorem C01_balance_partial (s : Store) (hinv : Inv s) (now : Nat) (mat m sy : Int) :
+theorem C01_balance_inv (s : Store) (hinv : Inv s) (now : Nat) (mat m sy : Int) :
     balance s now mat m sy = .ok (storeTruth s now mat m sy) := balance_eq_storeTruth s hinv now mat m sy
 
 /-! ### `UnspentOutputs` -/
@@ -233,78 +233,34 @@ theorem invB_sound (s : Store) (h : invB s = true) : Inv s := by
 /-- the freshly created store satisfies the invariant -/
 theorem C01_inv_init : Inv Store.empty := invB_sound _ (by decide)
 
-/-- one API call of the events *seen*, *abandoned*, *lease*, *release*, *sweep* -/
-inductive UnminedOp
-  | insertUnmined (rec : Tx)                       -- InsertTx(rec, nil)
-  | addCreditUnmined (rec : Tx) (i : Nat) (chg : Bool)   -- AddCredit(rec, nil, i, chg)
-  | removeUnmined (rec : Tx)                       -- RemoveUnminedTx(rec)
-  | lock (id : Nat) (op : OutPoint) (d : Int)
-  | unlock (id : Nat) (op : OutPoint)
-  | sweep
+/-- **the representation invariant holds after every chain-consistent history of store calls** (any length; inserts,
+redeliveries, credits, abandonments, `Rollback` to any height, reconnects, leases, sweeps; any clock values) -/
+theorem C01_inv_reachable (ops : List (Nat × Call)) (hp : PreAll Store.empty ops) : Inv (runCalls Store.empty ops) :=
+  inv_of_wf _ (wf2_runCalls _ wf2_empty ops hp).wf
 
-/-- effect of such a call at clock `now` (a failing call leaves the store unchanged: the DB transaction rolls back) -/
-def UnminedOp.run (s : Store) (now : Nat) : UnminedOp → Store
-  | .insertUnmined rec => match insertTx s rec none with | .ok (_, s') => s' | .error _ => s
-  | .addCreditUnmined rec i chg => match addCredit s rec none i chg with | .ok s' => s' | .error _ => s
-  | .removeUnmined rec => match removeUnminedTx s rec with | .ok s' => s' | .error _ => s
-  | .lock id op d => match lockOutput s now id op d with | .ok (_, s') => s' | .error _ => s
-  | .unlock id op => match unlockOutput s now id op with | .ok s' => s' | .error _ => s
-  | .sweep => deleteExpiredLockedOutputs s now
+/-- **C01, balance**: after every chain-consistent history of store calls — reorgs included —, at every prefix (a prefix
+of a consistent history is one), `Balance` for every probe instant, coinbase maturity, `minConf` and `syncHeight`
+equals the C01 sentence evaluated on the store's own records (`storeTruth`): the credited outputs without a mined
+spender that are not leased, not spent by an unconfirmed transaction, deep enough and (if coinbase) mature, plus at
+`minConf = 0` the unconfirmed credits that are neither leased nor spent. -/
+theorem C01_balance (ops : List (Nat × Call)) (hp : PreAll Store.empty ops) (now : Nat) (mat m sy : Int) :
+    balance (runCalls Store.empty ops) now mat m sy = .ok (storeTruth (runCalls Store.empty ops) now mat m sy) :=
+  C01_balance_inv _ (C01_inv_reachable ops hp) now mat m sy
 
-theorem sameMined_run (s : Store) (now : Nat) (o : UnminedOp) : SameMined s (o.run s now) := by
-  cases o with
-  | insertUnmined rec =>
-    simp only [UnminedOp.run]
-    split
-    · rename_i ex s' h
-      unfold insertTx at h
-      simp only at h
-      split at h
-      · cases h; exact SameMined.refl s
-      · cases h
-      · rename_i s2 h2; cases h; exact sameMined_insertMemPoolTx h2
-    · exact SameMined.refl s
-  | addCreditUnmined rec i chg =>
-    simp only [UnminedOp.run]
-    split
-    · rename_i s' h; exact sameMined_addCredit_unmined h
-    · exact SameMined.refl s
-  | removeUnmined rec =>
-    simp only [UnminedOp.run]
-    split
-    · rename_i s' h; exact sameMined_removeUnminedTx h
-    · exact SameMined.refl s
-  | lock id op d =>
-    simp only [UnminedOp.run]
-    split
-    · rename_i e s' h; exact sameMined_lockOutput h
-    · exact SameMined.refl s
-  | unlock id op =>
-    simp only [UnminedOp.run]
-    split
-    · rename_i s' h; exact sameMined_unlockOutput h
-    · exact SameMined.refl s
-  | sweep => exact sameMined_sweep s now
+/-- non-vacuity of `C01_balance`: a consistent history (coinbase confirmed and credited, then rolled back) -/
+example : PreAll Store.empty
+    [(0, .insertMined ⟨1, [⟨0, nullIndex⟩], [5000]⟩ ⟨⟨1, 11⟩, 100⟩),
+     (0, .addCreditMined ⟨1, [⟨0, nullIndex⟩], [5000]⟩ ⟨⟨1, 11⟩, 100⟩ 0 false),
+     (7, .rollback 1)] := by
+  refine ⟨Or.inr ⟨⟨?_, ?_, ?_⟩, ?_, by decide⟩, ?_, trivial, trivial⟩
+  · intro k h; cases h
+  · intro br h; cases h
+  · intro op uc h; cases h
+  · intro inp b h; cases h
+  · show KMap.find? _ _ = some _
+    decide
 
-/-- **the invariant is preserved** by every sequence (any length, any clock values) of the API calls that make up
-the events *seen*, *abandoned*, *lease*, *release*, *sweep*, *clock* — including malformed calls (unknown
-transactions, duplicate deliveries, removal of a transaction that is not unconfirmed).
-`_partial`: the two remaining events, *confirmed* (`insertMinedTx` + mined `addCredit`) and *disconnected*
-(`rollback`), are not covered by a proof; the driver checks `invB` after each of them on every generated history. -/
-theorem C01_inv_preserved_partial (s : Store) (h : Inv s) (ops : List (Nat × UnminedOp)) :
-    Inv (ops.foldl (fun s p => p.2.run s p.1) s) := by
-  induction ops generalizing s with
-  | nil => exact h
-  | cons p t ih => exact ih _ (inv_of_sameMined (sameMined_run s p.1 p.2) h)
-
-/-- consequently `Balance` stays equal to the C01 formula along every such sequence, at every instant -/
-theorem C01_balance_along_unmined_events_partial (s : Store) (h : Inv s) (ops : List (Nat × UnminedOp))
-    (now : Nat) (mat m sy : Int) :
-    let s' := ops.foldl (fun s p => p.2.run s p.1) s
-    balance s' now mat m sy = .ok (storeTruth s' now mat m sy) :=
-  C01_balance_partial _ (C01_inv_preserved_partial s h ops) now mat m sy
-
-/-- non-vacuity of `C01_balance_partial`: the example store satisfies `Inv` -/
+/-- non-vacuity of `C01_balance_inv`: the example store satisfies `Inv` -/
 example : Inv exStore := invB_sound _ (by decide)
 
 end TxStore.C01
